@@ -36,6 +36,9 @@ def MaxCFilterDataSize : Nat := 262144
 def MaxCFHeadersPerMsg : Nat := 2000
 def maxCFHeadersLen : Nat := 100000
 
+/-- the fixed multiple of the allocation clause: a decode requests at most `allocK * MaxMessagePayload` bytes -/
+def allocK : Nat := 12
+
 /-! ### protocol version gates -/
 def MultipleAddressVersion : Nat := 209
 def NetAddressTimeVersion : Nat := 31402
